@@ -102,6 +102,21 @@ enum Dest {
     Old,
     None,
     Dir,
+    /// as Old / None, plus a stale `.svspart` (longer than any content) left by an earlier killed pull
+    OldStale,
+    NoneStale,
+}
+impl Dest {
+    fn stale(self) -> bool {
+        matches!(self, Dest::OldStale | Dest::NoneStale)
+    }
+    fn base(self) -> Dest {
+        match self {
+            Dest::OldStale => Dest::Old,
+            Dest::NoneStale => Dest::None,
+            d => d,
+        }
+    }
 }
 #[derive(Clone, PartialEq, Debug)]
 enum Dec {
@@ -163,6 +178,8 @@ impl Script {
                 Dest::Old => "old",
                 Dest::None => "none",
                 Dest::Dir => "dir",
+                Dest::OldStale => "olds",
+                Dest::NoneStale => "nones",
             },
             match &self.dec {
                 Dec::Na => "-".to_string(),
@@ -203,6 +220,8 @@ impl Script {
                 dest: match w[6] {
                     "old" => Dest::Old,
                     "none" => Dest::None,
+                    "olds" => Dest::OldStale,
+                    "nones" => Dest::NoneStale,
                     _ => Dest::Dir,
                 },
                 dec: match w[8] {
@@ -509,13 +528,16 @@ fn prepare(dir: &Path, d: Dest) -> PathBuf {
     let _ = std::fs::remove_dir_all(dir);
     std::fs::create_dir_all(dir).expect("case dir");
     let dest = dir.join("out.bin");
-    match d {
+    if d.stale() {
+        std::fs::write(tmp_of(&dest), vec![0xEEu8; 40000]).unwrap();
+    }
+    match d.base() {
         Dest::Old => std::fs::write(&dest, OLD).unwrap(),
-        Dest::None => {}
         Dest::Dir => {
             std::fs::create_dir_all(&dest).unwrap();
             std::fs::write(dest.join("keep"), b"k").unwrap();
         }
+        _ => {}
     }
     dest
 }
@@ -527,6 +549,7 @@ enum DestState {
     Gone,
 }
 fn dest_state(dest: &Path, d: Dest) -> DestState {
+    let d = d.base();
     let md = std::fs::symlink_metadata(dest);
     match (d, md) {
         (Dest::None, Err(_)) => DestState::Same,
@@ -575,14 +598,16 @@ fn oracles(out: &mut Out, sc: &Script, o: &Obs, op: &str) {
             &ops,
         ),
         (Some(c), DestState::New(b)) if b == c => {}
-        (Some(c), DestState::Same) if sc.dest == Dest::Old && c == OLD => {}
+        (Some(c), DestState::Same) if sc.dest.base() == Dest::Old && c == OLD => {}
         (Some(c), d) => out.oracle_fail(
             &format!("commit.{p}.published-not-complete"),
             &format!("destination is {} but the complete content is {}", show_dest(d), digest(c)),
             &ops,
         ),
     }
-    if o.tmp {
+    // a pull that fails before it creates its temp file cannot be blamed for a stale one
+    let never_created = sc.open != Open::Ok || !sc.puller.tags_ok(sc.zstd, sc.beve);
+    if o.tmp && !(sc.dest.stale() && never_created) {
         out.oracle_fail(&format!("commit.{p}.temp-left"), "the .svspart sibling exists after the in-process pull returned", &ops);
     }
     if o.seen.called {
@@ -1313,6 +1338,19 @@ fn gen_and_run(args: &Args, out: &mut Out, ctx: &mut Ctx) {
                     }
                 }
             }
+            // a stale temp file from an earlier killed pull must not leak into what is published
+            for dest in [Dest::NoneStale, Dest::OldStale] {
+                let mut sc = make_script(p, zstd, &logical, &sizes, None, false);
+                sc.dest = dest;
+                ctx.exec_script(out, &next("s"), &sc, 0);
+                let mut sc = make_script(p, zstd, &logical, &sizes, Some((1, Resp::Cut)), false);
+                sc.dest = dest;
+                ctx.exec_script(out, &next("s"), &sc, 0);
+                let mut sc = make_script(p, zstd, &logical, &sizes, None, false);
+                sc.dest = dest;
+                sc.open = Open::Err;
+                ctx.exec_script(out, &next("s"), &sc, 0);
+            }
             // rename refused (destination is a non-empty directory), incompatible tags, raw-format stream
             let mut sc = make_script(p, zstd, &logical, &sizes, None, false);
             sc.dest = Dest::Dir;
@@ -1367,7 +1405,7 @@ fn gen_and_run(args: &Args, out: &mut Out, ctx: &mut Ctx) {
             sc.wire.push(Resp::Error);
         }
         sc.dec = dec_for(&sc);
-        sc.dest = *rng.pick(&[Dest::None, Dest::Old, Dest::Old, Dest::None, Dest::Dir]);
+        sc.dest = *rng.pick(&[Dest::None, Dest::Old, Dest::Old, Dest::None, Dest::Dir, Dest::OldStale, Dest::NoneStale]);
         sc.verify_ok = !rng.chance(1, 5);
         sc.beve = !rng.chance(1, 8);
         if p.has_trailer() {
